@@ -157,7 +157,7 @@ fn check(contigs: &[Vec<u8>], k: usize, seg: usize, rng: &mut Rng, dir: &str, re
     rep.count("interior_segments_checked", interior);
     // determinism across rayon pools
     for nt in [1usize, 2, 7, 16] {
-        let pool = rayon::ThreadPoolBuilder::new().num_threads(nt).build().map_err(|e| format!("harness: rayon pool: {e}"))?;
+        let pool = rayon::ThreadPoolBuilder::new().num_threads(nt).thread_name(|i| format!("vh-rayon-{}", i)).build().map_err(|e| format!("harness: rayon pool: {e}"))?;
         let (s3, a3, d3) = pool.install(|| determine_splitters(contigs, k, seg));
         if sorted(&s3) != spl_s || sorted(&a3) != single_s || sorted(&d3) != dup_s {
             return Err(format!("threads: result differs with a rayon pool of {} threads", nt));
